@@ -51,7 +51,13 @@ def run_configs(chk, harness, configs, prefixes, jobs, deadline_s, variant_of=No
             per_cfg.append(dict(params=params, bound=bound, build=variant, skipped="tier deadline reached"))
             continue
         env = harnesses.asan_env() if variant == "asan" else None
-        res = harnesses.explore(exes[variant], params, bound, left, jobs=jobs, env=env)
+        # fairness between configurations: none may take more than three times its even share of what is left (the
+        # explorer completes the bounds 0..D in turn, so a configuration that is cut reports the bound it completed)
+        n_left = len(configs) - len(per_cfg)
+        share = max(60.0, 3.0 * left / max(1, n_left))
+        res = harnesses.explore(exes[variant], params, bound, min(left, share), jobs=jobs, env=env)
+        if res.get("deadline_hit"):
+            chk.deadline_hit = True
         harnesses.merge_into(chk, res, prefixes, params, build_variant=variant)
         tot["executions"] += res.get("executions", 0)
         tot["states"] += res.get("states", 0)
